@@ -23,12 +23,24 @@ for pid in sorted(PROPS):
 out.append("\nNot applicable: none — every property has a logic core that M expresses; where part of the truth lives in the\n"
            "runtime (native stack bytes, process I/O, wasm, JSON-RPC) the MANIFEST `level_note` names the part that is only exercised.\n")
 out.append("\n---------------------------------------------------------------------------\n\n## 6. Seeded changes: which check catches which\n\n"
-           "Forty changes (two per property) were written by fresh sub-agents that saw only the property text and a scratch\n"
-           "worktree; each compiles, passes the 153 existing tests, and comes with a demonstration that fails with the change\n"
-           "and passes without it (confirmed here with `tools/confirm_seed.sh`).  They are kept under `seeded/<id>-<a|b>/`\n"
-           "(`patch.diff`, demo, `meta.json`) and were run with `tools/try_seed.sh` (apply to /repo, `./check`, undo).\n"
-           "Where a change was missed at first, the check was strengthened (generator or oracle), never special-cased;\n"
-           "all forty are now reported, thirty-eight with a concrete failing input and the rest as noted.\n\n"
+           "Eighty changes (four per property, in two rounds) were written by fresh sub-agents that saw only the property text and a\n"
+           "scratch worktree (the second round was also told what the first had tried, so as not to repeat it); each compiles,\n"
+           "passes the 153 existing tests, and comes with a demonstration that fails with the change and passes without it\n"
+           "(confirmed here with `tools/confirm_seed.sh`).  They are kept under `seeded/<id>-<a|b|c|d>/` (`patch.diff`, demo,\n"
+           "`meta.json`) and were run with `tools/try_seed.sh` (apply to /repo, `./check`, undo).\n\n"
+           "Round 2 (`-c`, `-d`) was run against the checks as they stood after round 1: 25 of 40 were reported at once, 15 were\n"
+           "MISSED (C01-c, C02-c, C03-c, C03-d, C04-d, C05-d, C06-c, C08-d, C10-c, C10-d, C11-c, C11-d, C12-c, C15-c, C18-c, C18-d,\n"
+           "C19-c, C19-d minus the three caught by the thorough tier only).  Every miss was a generator that did not reach the\n"
+           "triggering shape, never a wrong oracle; what was added, never special-cased to the patch: stacked unary operators and\n"
+           "implementation-only 200000-operator probes, a nesting-counter-is-zero-between-calls oracle (C01); exhaustive string\n"
+           "comparisons incl. never-assigned variables (C02); same-name nested FN parameters, several DATA statements with\n"
+           "RESTORE after crossing (C03); separator-only line bodies (C04); files with 60..400 diagnostics (C05, C20);\n"
+           "definitions x calls of every arity, unary after binary operators (C06); multi-byte replies with surplus (C08);\n"
+           "programs whose RUN path skips a DEF / the empty program (C10); death by error, loops and functions opened at the\n"
+           "prompt, tokenization-error probes with caret rendering (C11, C01); identifiers spelled like earlier literal text,\n"
+           "whole sessions in two spellings (C12); end-of-line text with trailing blanks (C15); algebraic predecessors of special\n"
+           "generator states, RND inside RUN (C18); string-pool / STATS and 200..1000-line LIST scenarios on the page (C19).\n"
+           "All eighty are now reported by the quick tier, most with a concrete failing input (the table says which).\n\n"
            "| seed | needs, in order to manifest | result |\n|---|---|---|\n")
 for d in sorted(glob.glob(os.path.join(V, "seeded", "*"))):
     m = json.load(open(os.path.join(d, "meta.json")))
